@@ -15,6 +15,13 @@ def ints? (s : String) : Option (List Int) :=
 
 def hex64 (v : Int) : String := hexOfNat 16 (v % 2 ^ 64).toNat
 
+def errName (e : Nat) : String := if e = ERANGE then "ERANGE" else if e = EINVAL then "EINVAL" else toString e
+
+/-- `n` calls of `rand_r(&seed)` -/
+def randRStream : Nat → Nat → List Int
+  | 0, _ => []
+  | n + 1, seed => let r := randR seed; r.2 :: randRStream n r.1
+
 def stepLine (_ : Unit) (line : String) : Unit × String :=
   let r : Option String :=
     match words line with
@@ -24,21 +31,23 @@ def stepLine (_ : Unit) (line : String) : Unit × String :=
         let base ← base.toNat?
         let t ← parseBytes? t
         let mem := t ++ [0#8]
-        let sg (r : Option (Int × Nat)) : String :=
+        let sg (r : Option (Int × Nat × Nat)) : String :=
           match r with
-          | some (v, e) => hex64 v ++ " " ++ toString e
+          | some (v, e, err) => hex64 v ++ " " ++ toString e ++ " " ++ errName err
           | none => "fault"
-        let us (r : Option (Nat × Nat)) : String :=
+        let us (r : Option (Nat × Nat × Nat)) : String :=
           match r with
-          | some (v, e) => hexOfNat 16 v ++ " " ++ toString e
+          | some (v, e, err) => hexOfNat 16 v ++ " " ++ toString e ++ " " ++ errName err
           | none => "fault"
         match fn with
-        | "l" => pure (sg (strtol 64 mem base))
-        | "ul" => pure (us (strtoul 64 mem base))
-        | "ll" => pure (sg (strtoll 64 mem base))
-        | "ull" => pure (us (strtoull 64 mem base))
-        | "imax" => pure (sg (strtoimax 64 mem base))
-        | "umax" => pure (us (strtoumax 64 mem base))
+        | "l" => pure (sg (strtolE 64 mem base))
+        | "ul" => pure (us (strtoulE 64 mem base))
+        | "ll" => pure (sg (strtollE 64 mem base))
+        | "ull" => pure (us (strtoullE 64 mem base))
+        | "imax" => pure (sg (strtoimaxE 64 mem base))
+        | "umax" => pure (us (strtoumaxE 64 mem base))
+        | "q" => pure (sg (strtoqE 64 mem base))
+        | "uq" => pure (us (strtouqE 64 mem base))
         | _ => none
     | ["at", fn, t] => do
         let t ← parseBytes? t
@@ -46,7 +55,13 @@ def stepLine (_ : Unit) (line : String) : Unit × String :=
         match fn with
         | "l" => pure (match atol 64 mem with | some v => hex64 v | none => "fault")
         | "i" => pure (match atoi 64 32 mem with | some v => hexOfNat 8 (v % 2 ^ 32).toNat | none => "fault")
+        | "ll" => pure (match atoll 64 mem with | some v => hex64 v | none => "fault")
         | _ => none
+    | ["rndr", seed, n] => do
+        let seed ← seed.toNat?
+        let n ← n.toNat?
+        let xs := randRStream n seed
+        pure (if xs.isEmpty then "-" else ",".intercalate (xs.map toString))
     | ["rnd", seed, n] => do
         let seed ← seed.toNat?
         let n ← n.toNat?
@@ -64,14 +79,19 @@ def stepLine (_ : Unit) (line : String) : Unit × String :=
         | some (out, _) =>
           pure (if out.isEmpty then "-" else
             ",".intercalate (out.map fun e => if esize > 1 then toString e.1 ++ "." ++ toString e.2 else toString e.1))
-    | ["bs", _, kind, key, keys] => do
+    | [bd, _, kind, key, keys] => do
         let kind ← kind.toNat?
         let key ← key.toInt?
         let keys ← ints? keys
-        match bsearch (cmpKeys kind) key keys with
-        | none => pure "fault"
-        | some none => pure "null"
-        | some (some i) => pure (toString i)
+        match bd with
+        | "bs" =>
+          match bsearch (cmpKeys kind) key keys with
+          | none => pure "fault"
+          | some none => pure "null"
+          | some (some i) => pure (toString i)
+        | "ub" => pure (match upperBound (cmpKeys kind) key keys with | some i => toString i | none => "fault")
+        | "lb" => pure (match lowerBound (cmpKeys kind) key keys with | some i => toString i | none => "fault")
+        | _ => none
     | _ => none
   ((), r.getD "bad-op")
 
